@@ -40,6 +40,8 @@ def _structures():
       'mat23': [('', (2, 3), 'f')],
       'dict2': [('a', (2,), 'f'), ('b', (1,), 'f')],
       'dict_int': [('x', (2,), 'f'), ('n', (1,), 'i')],
+      # a float leaf narrower than the statistics dtype (float32 under x64)
+      'dict_f32': [('x', (2,), 'f'), ('y', (1,), 'h')],
   }
 
 
@@ -117,11 +119,13 @@ class StatSystem:
     for (name, shp, kind), col in zip(self.leaves, self.cols):
       a = np.array([[float(v) for v in col[s]] for s in range(lo, hi)])
       a = a.reshape(shape + shp)
-      arrs.append(a.astype(np.int32 if kind == 'i' else self.fdt))
+      arrs.append(a.astype(np.int32 if kind == 'i' else
+                           np.float32 if kind == 'h' else self.fdt))
     return self._tree(arrs)
 
   def init(self):
-    tmpl = self._tree([np.zeros(shp, np.int32 if kind == 'i' else self.fdt)
+    tmpl = self._tree([np.zeros(shp, np.int32 if kind == 'i' else
+                                np.float32 if kind == 'h' else self.fdt)
                        for _, shp, kind in self.leaves])
     return (self.rs.init_state(tmpl), 0)
 
@@ -177,13 +181,15 @@ class StatSystem:
                          (cnt, tot, i)))
       gm = self._leaf(st.mean, li).reshape(-1)
       gs = self._leaf(st.std, li).reshape(-1)
-      fs = self.fscale if kind == 'f' else 12.0
+      fs = self.fscale if kind in 'fh' else 12.0
+      # a float32 leaf carries float32-rounded data
+      tolk = max(self.tol, 3e-7) if kind == 'h' else self.tol
       for f in range(len(mean)):
-        if not abs(gm[f] - float(mean[f])) <= self.tol * fs:
+        if not abs(gm[f] - float(mean[f])) <= tolk * fs:
           problems.append(('mean', 'leaf %r feature %d: mean %r, exact %r '
                            'after %d samples' % (name, f, float(gm[f]),
                                                  float(mean[f]), i)))
-        if not abs(gs[f] - std[f]) <= self.tol * fs + 1e-12:
+        if not abs(gs[f] - std[f]) <= tolk * fs + 1e-12:
           problems.append(('std', 'leaf %r feature %d: std %r, exact %r '
                            'after %d samples' % (name, f, float(gs[f]), std[f],
                                                  i)))
@@ -210,23 +216,24 @@ class StatSystem:
         continue
       tot, mean, std = _prefix_stats(self.cols[li], self.wfr, self.n,
                                      self.smin, self.smax)
+      tol = self.tol if kind == 'f' else max(self.tol, 3e-7)
       # compared after multiplying back by std: (x - mean) is what carries the
       # information; dividing by a clipped std of 1e-6 (constant column) would
       # only amplify round-off
       sd = np.array(std)
       want = x.reshape(self.n, -1) - np.array([float(m) for m in mean])
       err = np.max(np.abs(nz.reshape(self.n, -1) * sd - want)) / self.fscale
-      if not err <= self.tol * 10:
+      if not err <= tol * 10:
         problems.append(('normalize', 'normalize(x)*std differs from x-mean by '
                          '%.3g of scale (leaf %r)' % (err, name)))
       err = np.max(np.abs(bk - x)) / self.fscale
-      if not err <= self.tol * 10:
+      if not err <= tol * 10:
         problems.append(('roundtrip', 'denormalize(normalize(x)) differs by '
                          '%.3g of scale (leaf %r)' % (err, name)))
     # clipping of normalised values
     normc = rs.normalize(batch, st, max_abs_value=0.5)
     for li, (name, shp, kind) in enumerate(self.leaves):
-      if kind == 'f' and np.max(np.abs(self._leaf(normc, li))) > 0.5 + 1e-12:
+      if kind in 'fh' and np.max(np.abs(self._leaf(normc, li))) > 0.5 + 1e-6:
         problems.append(('normalize-clip', 'max_abs_value not honoured'))
     return problems
 
